@@ -19,8 +19,9 @@ state whose heap is closed (`HeapOK`) and whose arguments are closed in it,
 right sort (list cell / map or robot cell), and every robot cell satisfies the invariants `Robot.WF` and
 `Robot.Mach` of `Thm/C17.lean` (under which `Robot.moveForward` cannot hit one of its panic sites).
 
-The only extra hypothesis: for `ROBOT_MAP(s)` the text `s` is shorter than `2^63` bytes (`hlen`) — what
-`Robot.parse_mach` needs; every Rust `&str` satisfies it (`isize::MAX` bytes is the allocation limit).
+No extra hypothesis: `ROBOT_MAP(s)` of a text of `2^63` bytes or more is outside the model's resource envelope
+(`.fuel`; every Rust `&str` is shorter, `isize::MAX` bytes being the allocation limit), which is what
+`Robot.parse_mach` needs.
 
 One lemma per module (`core_total`, `math_total'`, `string_total`, `map_total`, `io_total`, `style_total`,
 `time_total`, `robot_total`, `fs_total`), assembled by `cases` on `Native.group`.
@@ -143,7 +144,7 @@ def Good (T : Prop) (σ : St) : Res (Value × St) → Prop
   | .err _ σ' => σ' = σ
   | .terminate _ σ' => T ∧ σ' = σ
   | .panic _ _ => False
-  | .fuel => ∃ v, display σ v = .fuel
+  | .fuel => (∃ v, display σ v = .fuel) ∨ ∃ s : Str, 2 ^ 63 ≤ ulen s
 
 variable {T : Prop} {σ : St}
 
@@ -250,7 +251,7 @@ theorem good_display {v : Value} {k : Str → Res (Value × St)}
     (h : ∀ s, Good T σ (k s)) : Good T σ ((display σ v).bind k) := by
   rcases display_ok_or_fuel σ v with ⟨s, hs⟩ | hf
   · rw [hs]; exact h s
-  · rw [hf]; exact ⟨v, hf⟩
+  · rw [hf]; exact Or.inl ⟨v, hf⟩
 
 theorem displayAll_ok_or_fuel (σ : St) (vs : List Value) :
     (∃ parts, displayAll σ vs = .ok parts) ∨ (displayAll σ vs = .fuel ∧ ∃ v ∈ vs, display σ v = .fuel) := by
@@ -269,7 +270,7 @@ theorem good_displayAll {vs : List Value} {k : List Str → Res (Value × St)}
     (h : ∀ parts, Good T σ (k parts)) : Good T σ ((displayAll σ vs).bind k) := by
   rcases displayAll_ok_or_fuel σ vs with ⟨parts, hp⟩ | ⟨hf, w, _, hwf⟩
   · rw [hp]; exact h parts
-  · rw [hf]; exact ⟨w, hwf⟩
+  · rw [hf]; exact Or.inl ⟨w, hwf⟩
 
 theorem readInput_heap (env : CharEnv) (p : Str) (σ : St) : (readInput env p σ).2.heap = σ.heap := by
   unfold readInput
@@ -616,7 +617,7 @@ theorem moveRobot_good (hσ : HeapOK σ) (n : Native) (hn : n = .moveForward ∨
 theorem robot_total (env : CharEnv) (n : Native) (hg : n.group = .robot) (args : List Value) (spans : List Span)
     (hl : args.length = n.arity) (hs : spans.length = n.arity) (hσ : HeapOK σ)
     (ha : ∀ v ∈ args, v.ClosedIn σ.heap)
-    (hlen : ∀ s, n = .robotMap → args = [.str s] → ulen s < 2 ^ 63) : Good (BlockedMove n args σ) σ (callNative env n args spans σ) := by
+ : Good (BlockedMove n args σ) σ (callNative env n args spans σ) := by
   cases n <;> first | exact absurd hg (by decide) | skip
   all_goals
     simp only [Native.arity, Native.info] at hl hs
@@ -628,10 +629,13 @@ theorem robot_total (env : CharEnv) (n : Native) (hg : n.group = .robot) (args :
   case robotMap =>
     rw [callNative_robotMap]
     refine good_castStr fun s hs => ?_
+    by_cases hbig : 2 ^ 63 ≤ ulen s
+    · rw [if_pos hbig]; exact Or.inr ⟨s, hbig⟩
+    rw [if_neg hbig]
     split
     · rename_i r hr
       exact good_allocObj hσ (c := .robot r)
-        ⟨Robot.parse_wf hr, Robot.parse_mach (hlen s rfl (by rw [hs])) hr⟩ (Or.inr rfl)
+        ⟨Robot.parse_wf hr, Robot.parse_mach (by omega) hr⟩ (Or.inr rfl)
     · exact good_same hσ rfl trivial
   case canMove =>
     rw [callNative_canMove]
@@ -699,8 +703,7 @@ theorem fs_total (env : CharEnv) (n : Native) (hg : n.group = .fs) (args : List 
 /-- **every native procedure is total** (see the file header for the reading of `Good`). -/
 theorem builtin_total (env : CharEnv) (n : Native) (args : List Value) (spans : List Span)
     (hl : args.length = n.arity) (hs : spans.length = n.arity) (hσ : HeapOK σ)
-    (ha : ∀ v ∈ args, v.ClosedIn σ.heap)
-    (hlen : ∀ s, n = .robotMap → args = [.str s] → ulen s < 2 ^ 63) :
+    (ha : ∀ v ∈ args, v.ClosedIn σ.heap) :
     Good (BlockedMove n args σ) σ (callNative env n args spans σ) := by
   cases hg : n.group with
   | core => exact (core_total env n hg args spans hl hs hσ ha).imp False.elim
@@ -710,43 +713,43 @@ theorem builtin_total (env : CharEnv) (n : Native) (args : List Value) (spans : 
   | io => exact (io_total env n hg args spans hl hs hσ ha).imp False.elim
   | style => exact (style_total env n hg args spans hl hs hσ ha).imp False.elim
   | time => exact (time_total env n hg args spans hl hs hσ ha).imp False.elim
-  | robot => exact robot_total env n hg args spans hl hs hσ ha hlen
+  | robot => exact robot_total env n hg args spans hl hs hσ ha
   | fs => exact (fs_total env n hg args spans hl hs hσ ha).imp False.elim
 
 section corollaries
 variable (env : CharEnv) (n : Native) (args : List Value) (spans : List Span)
   (hl : args.length = n.arity) (hs : spans.length = n.arity) (hσ : HeapOK σ)
   (ha : ∀ v ∈ args, v.ClosedIn σ.heap)
-  (hlen : ∀ s, n = .robotMap → args = [.str s] → ulen s < 2 ^ 63)
-include hl hs hσ ha hlen
+include hl hs hσ ha
 
 /-- **no native procedure panics** -/
 theorem builtin_never_panics : ∀ site out, callNative env n args spans σ ≠ .panic site out := by
   intro site out h
-  have := builtin_total env n args spans hl hs hσ ha hlen
+  have := builtin_total env n args spans hl hs hσ ha
   rw [h] at this; exact this
 
 /-- **termination only for a blocked robot move** (the specified "robot moved into a wall") -/
 theorem builtin_terminate_only_blocked_move (w : String) (σ' : St)
     (h : callNative env n args spans σ = .terminate w σ') : BlockedMove n args σ ∧ σ' = σ := by
-  have := builtin_total env n args spans hl hs hσ ha hlen
+  have := builtin_total env n args spans hl hs hσ ha
   rw [h] at this; exact this
 
 /-- **`.fuel` only when `display` runs out of its depth budget** -/
-theorem builtin_fuel_only_display (h : callNative env n args spans σ = .fuel) : ∃ v, display σ v = .fuel := by
-  have := builtin_total env n args spans hl hs hσ ha hlen
+theorem builtin_fuel_only_display (h : callNative env n args spans σ = .fuel) :
+    (∃ v, display σ v = .fuel) ∨ ∃ s : Str, 2 ^ 63 ≤ ulen s := by
+  have := builtin_total env n args spans hl hs hσ ha
   rw [h] at this; exact this
 
 /-- a runtime error leaves the state as it was -/
 theorem builtin_err_state (e : RtErr) (σ' : St) (h : callNative env n args spans σ = .err e σ') : σ' = σ := by
-  have := builtin_total env n args spans hl hs hσ ha hlen
+  have := builtin_total env n args spans hl hs hσ ha
   rw [h] at this; exact this
 
 /-- **preservation**: after a successful call the heap is closed again, the result is closed in it, and
 everything that was closed before still is — the hypotheses of `builtin_total` hold for the next call. -/
 theorem builtin_preserves (v : Value) (σ' : St) (h : callNative env n args spans σ = .ok (v, σ')) :
     HeapOK σ' ∧ v.ClosedIn σ'.heap ∧ ∀ w : Value, w.ClosedIn σ.heap → w.ClosedIn σ'.heap := by
-  have := builtin_total env n args spans hl hs hσ ha hlen
+  have := builtin_total env n args spans hl hs hσ ha
   rw [h] at this
   exact ⟨this.1, this.2.1, fun w hw => hw.mono this.2.2⟩
 
@@ -795,6 +798,6 @@ example (env : CharEnv) (s1 s2 : Span) :
   have ha : ∀ v ∈ [Value.list 0, Value.list 0], v.ClosedIn ({ heap := [.list []] } : St).heap := by
     intro v hv; simp at hv; subst hv; show sortAt [Cell.list []] 0 = some .list; rfl
   refine ⟨_, rfl, ?_⟩
-  exact (builtin_preserves env .append _ [s1, s2] rfl rfl hσ ha (by intro s h; cases h) _ _ rfl).1
+  exact (builtin_preserves env .append _ [s1, s2] rfl rfl hσ ha _ _ rfl).1
 
 end Aplang
